@@ -20,6 +20,7 @@ EXPLANATION = (
     "constructor argument to the k-model they build; (R2) every raise in constructors and validation helpers is ValueError (or a bare "
     "re-raise inside `except ValueError`) and no handler between a validation site and the API boundary swallows it; (R4) the boolean validator behind every conservation "
     "site examines every node having both incoming and outgoing edges (no other exemption), compares the complete in-sum with the complete out-sum and answers True only after the last node; (R3, advisory) "
+    " (R5) the construction-time edge queries keyed by the synthetic source / sink are guarded by node membership, so the no-source / no-sink ValueError cannot be bypassed by one-character node names. "
     "reads of loop variables after a possibly empty loop are listed as notes.  NOT decided: the converse (every well-formed input is accepted)."
 )
 DECIDED = ["each documented domain violation has a ValueError rejection on every completing path", "delegated checks are always invoked",
@@ -362,6 +363,42 @@ def enclosing_tests_in(root, node):
     return enclosing_tests(root, node)
 
 
+def synthetic_endpoint_queries(prog, rep, RID):
+    """While the source-sink graph is being built the synthetic source (sink) exists only if some node was wired to it.  An
+    out_edges / in_edges / successors / predecessors / degree query with a string that is not a node makes networkx iterate the
+    string - the characters of 'source_<id>' - so graphs with one-character node names get bogus source edges and slip through
+    the 'at least one source' ValueError."""
+    import ast
+    from sa.pm import dotted, norm, calls_in, AnalysisError
+    from rules.semantic import enclosing_tests
+    f = prog.own_method("AbstractSourceSinkGraph", "_augment_with_source_sink")
+    n = 0
+    for c in calls_in(f.node):
+        d = dotted(c.func) or ""
+        if d in ("self.out_edges", "self.in_edges", "self.edges", "self.successors", "self.predecessors", "self.out_degree", "self.in_degree") and \
+                c.args and norm(c.args[0]) in ("self.source", "self.sink"):
+            n += 1
+            x = norm(c.args[0])
+            key = f"AbstractSourceSinkGraph._augment_with_source_sink:{d[5:]}({x})"
+            tests = [(norm(t), pol) for t, pol in enclosing_tests(f.node, c)]
+            # conditional expressions are not statements: look for an enclosing IfExp as well
+            guarded = any(pol and t in (f"{x} in self", f"self.has_node({x})", f"{x} in self.nodes", f"{x} in self.nodes()") for t, pol in tests)
+            for ie in [m for m in ast.walk(f.node) if isinstance(m, ast.IfExp)]:
+                if any(y is c for y in ast.walk(ie.body)) and norm(ie.test) in (f"{x} in self", f"self.has_node({x})", f"{x} in self.nodes", f"{x} in self.nodes()"):
+                    guarded = True
+            added = any((dotted(k.func) or "") == "self.add_node" and k.args and norm(k.args[0]) == x and not enclosing_tests(f.node, k)
+                        and k.lineno < c.lineno for k in calls_in(f.node))
+            if guarded or added:
+                rep.ok(RID, key, f"queried only when {x} is a node of the graph", f.loc(c))
+            else:
+                rep.violation(RID, key, f"`{norm(c)}` is evaluated although {x} is a node only if some start (end) was wired to it: for a graph without source "
+                              "(sink) networkx iterates the characters of the name, a cycle over nodes 's', 'o', 'u' gets bogus source edges, passes the "
+                              "'at least one source' check and fails later with OverflowError instead of ValueError", f.loc(c))
+    if n == 0:
+        raise AnalysisError("_augment_with_source_sink: the source / sink edge queries were not found")
+    return n
+
+
 def check(prog: Program, rep):
     rep.rule("C19.R1", "validation sites: presence, context and dominance (dataflow)", floor=120)
     val.check_sites(prog, rep, "C19.R1", skip_funcs=lambda k: k.endswith(":read_graph"))
@@ -376,3 +413,7 @@ def check(prog: Program, rep):
     rep.rule("C19.R4", "the flow-conservation validator examines every inner node with complete in/out sums", floor=4)
     conservation_validator(prog, rep, "C19.R4")
     unbound_after_loop_notes(prog, rep)
+    rep.rule("C19.R5", "the 'no source / no sink' validation reads real edges: construction-time edge queries keyed by the synthetic source / sink are "
+             "guarded by node membership (networkx takes a non-node string for a container of nodes)", floor=2)
+    synthetic_endpoint_queries(prog, rep, "C19.R5")
+
